@@ -21,6 +21,7 @@ import (
 	"pgregory.net/rapid"
 
 	"verifharness/internal/ev"
+	"verifharness/internal/gen"
 	"verifharness/internal/h"
 )
 
@@ -215,11 +216,30 @@ func num(t *rapid.T, label string, safe string) string {
 	return safe
 }
 
+// reVal: one of the fixed values, or (1 in 3) a grammar-free string over regex metacharacters.
+func reVal(t *rapid.T, label string, fixed []string) string {
+	if rapid.IntRange(0, 2).Draw(t, label+".soup") == 0 {
+		return gen.RegexSoup(t, label)
+	}
+	return rapid.SampledFrom(fixed).Draw(t, label)
+}
+
+// modOpt: one of the fixed option strings, or (1 in 3) regex=/notRegex= with a grammar-free value.
+func modOpt(t *rapid.T, fixed []string) string {
+	if rapid.IntRange(0, 2).Draw(t, "opt.soup") == 0 {
+		return rapid.SampledFrom([]string{"regex=", "notRegex="}).Draw(t, "opt.k") + gen.RegexSoup(t, "opt.v")
+	}
+	return rapid.SampledFrom(fixed).Draw(t, "opt")
+}
+
 func filterOpts(t *rapid.T, label string) string {
 	var parts []string
 	for _, k := range []string{"prefix", "notPrefix", "sub", "notSub", "regex", "notRegex"} {
 		if rapid.IntRange(0, 4).Draw(t, label+"."+k) == 0 {
 			v := rapid.SampledFrom([]string{"foo", "stats", "bar", "", "^foo", "(", "[", ".*", "x{99999}", "true", "5"}).Draw(t, label+"."+k+".v")
+			if rapid.Bool().Draw(t, label+"."+k+".soup") {
+				v = gen.RegexSoup(t, label+"."+k+".v")
+			}
 			parts = append(parts, k+"="+v)
 		}
 	}
@@ -270,12 +290,15 @@ func genCommand(t *rapid.T, keys *[]string) string {
 	}
 	switch rapid.IntRange(0, 13).Draw(t, "cmdkind") {
 	case 0:
-		return "addBlack " + rapid.SampledFrom([]string{"prefix", "notPrefix", "sub", "notSub", "regex", "notRegex", "bogus", ""}).Draw(t, "m") + " " + rapid.SampledFrom([]string{"foo", "(", "stats.", ""}).Draw(t, "v")
+		return "addBlack " + rapid.SampledFrom([]string{"prefix", "notPrefix", "sub", "notSub", "regex", "notRegex", "bogus", ""}).Draw(t, "m") + " " + reVal(t, "v", []string{"foo", "(", "stats.", ""})
 	case 1:
 		return "addRewriter " + rapid.SampledFrom([]string{"foo", "/foo/", "/(/", "", "/"}).Draw(t, "old") + " " + rapid.SampledFrom([]string{"bar", "${1}", ""}).Draw(t, "new") + " " + rapid.SampledFrom([]string{"-1", "0", "1", "-2", "x", "99999999999999999999"}).Draw(t, "max")
 	case 2, 3:
 		fn := rapid.SampledFrom([]string{"sum", "avg", "count", "max", "min", "last", "delta", "derive", "stdev", "percentiles", "bogus"}).Draw(t, "fn")
 		re := rapid.SampledFrom([]string{"regex=^foo\\.(.*)", "regex=.*", "regex=(", "", "^foo", "regex=stats"}).Draw(t, "re")
+		if rapid.IntRange(0, 2).Draw(t, "re.soup") == 0 {
+			re = "regex=" + gen.RegexSoup(t, "re")
+		}
 		opts := filterOpts(t, "aggf")
 		s := "addAgg " + fn + " " + re
 		if opts != "" {
@@ -326,9 +349,9 @@ func genCommand(t *rapid.T, keys *[]string) string {
 		}
 		return s
 	case 8:
-		return "modDest " + key() + " " + rapid.SampledFrom([]string{"0", "1", "5", "x", "99999999999999999999"}).Draw(t, "idx") + " " + rapid.SampledFrom([]string{"prefix=foo", "regex=(", "addr={SINK}", "addr=127.0.0.1:1", "addr=", "bogus=1", ""}).Draw(t, "opt")
+		return "modDest " + key() + " " + rapid.SampledFrom([]string{"0", "1", "5", "x", "99999999999999999999"}).Draw(t, "idx") + " " + modOpt(t, []string{"prefix=foo", "regex=(", "addr={SINK}", "addr=127.0.0.1:1", "addr=", "bogus=1", ""})
 	case 9:
-		return "modRoute " + key() + " " + rapid.SampledFrom([]string{"prefix=foo", "regex=(", "sub=", "bogus=1", "", "notRegex=.*"}).Draw(t, "opt")
+		return "modRoute " + key() + " " + modOpt(t, []string{"prefix=foo", "regex=(", "sub=", "bogus=1", "", "notRegex=.*"})
 	case 10:
 		return "delRoute " + key()
 	case 11:
@@ -359,7 +382,7 @@ func genTOML(t *rapid.T, keys *[]string) string {
 		sb.WriteString("[[aggregation]]\n")
 		fmt.Fprintf(&sb, "function = '%s'\n", rapid.SampledFrom([]string{"sum", "avg", "percentiles", "bogus", "count"}).Draw(t, "fn"))
 		if rapid.IntRange(0, 2).Draw(t, "regex?") > 0 {
-			fmt.Fprintf(&sb, "regex = '%s'\n", rapid.SampledFrom([]string{`^foo\.(.*)`, ".*", "(", "stats"}).Draw(t, "re"))
+			fmt.Fprintf(&sb, "regex = '%s'\n", reVal(t, "re", []string{`^foo\.(.*)`, ".*", "(", "stats"}))
 		}
 		if rapid.Bool().Draw(t, "prefix?") {
 			fmt.Fprintf(&sb, "prefix = '%s'\n", rapid.SampledFrom([]string{"foo", "stats", ""}).Draw(t, "prefix"))
